@@ -5,8 +5,8 @@
    property directly.  Termination of the MODEL is by construction (structural recursion on fuel); that the fuel the
    driver passes suffices is observed on every run (no FUEL outcome), not yet proved.  Proved so far - the tokenizer's
    behaviour on the token classes the top-level loop dispatches on (for every amount of leading horizontal whitespace): *)
-Require Import Bebop.front.Tok Bebop.front.TokInv.
-From Coq Require Import List.
+Require Import Bebop.front.Tok Bebop.front.TokInv Bebop.front.LexInv.
+From Coq Require Import List NArith.
 Import ListNotations.
 
 Definition C11_partial_statement : Prop :=
@@ -21,3 +21,34 @@ Definition C11_partial_statement : Prop :=
 Theorem C11_partial : C11_partial_statement.
 Proof. split; [exact next_term1|exact next_word]. Qed.
 Print Assumptions C11_partial.
+
+(* Whole texts.  A text that is a sequence of lexemes - words (identifiers and keywords), single-byte terminals (newline,
+   braces, brackets, parentheses, ; , : = | &), the arrow, decimal integer literals, string literals without escapes -
+   each preceded by ANY run of horizontal whitespace (spaces, tabs, CRs: CRLF line ends included), is tokenized into
+   exactly those tokens, followed by clean end-of-input results and nothing else (lex_inversion).  The parser model is a
+   function of that list alone, so for these texts "the result does not depend on horizontal whitespace ... CRLF line
+   ends" holds at the only interface through which layout could reach it: two such texts with the same lexemes give the
+   same tokens (layout_independent).  Not covered: comments, floats, negative / hex literals, << >>, escapes. *)
+Definition C11_lex_statement : Prop :=
+  (forall l tail m lb lr,
+     Forall (fun p => hws (fst p) /\ lex_ok (snd p)) l -> sep_ok l -> hws tail ->
+     next_results (length l + m) (st (render l tail) lb lr) = map (fun p => NT (tok_of (snd p)) []) l ++ repeat (NF []) m) /\
+  (forall l l' tail tail', map snd l = map snd l' ->
+     Forall (fun p => hws (fst p) /\ lex_ok (snd p)) l -> sep_ok l -> hws tail ->
+     Forall (fun p => hws (fst p) /\ lex_ok (snd p)) l' -> sep_ok l' -> hws tail' ->
+     exists toks m m', run (render l tail) false = toks ++ repeat (NF []) m /\ run (render l' tail') false = toks ++ repeat (NF []) m').
+Theorem C11_lex : C11_lex_statement.
+Proof. exact (conj lex_inversion layout_independent). Qed.
+
+(* the hypotheses are met by a real schema text with ragged spacing and CRLF line ends *)
+Example C11_lex_witness :
+  let sp := [32%N] in let crlf := [13%N] in
+  let l := [([], W 115 [116;114;117;99;116]); (sp ++ sp, W 65 []); ([9%N], T1 123 kOpenCu); (crlf, T1 10 kNewline);
+            (sp, W 105 [110;116;51;50]); ([9%N; 32%N], W 97 []); ([], T1 59 kSemi); (crlf, T1 10 kNewline);
+            ([], Num 49 []); (sp, Arrow); (sp, Str [120]); ([], T1 125 kCloseCu); ([], T1 10 kNewline)]%N in
+  Forall (fun p => hws (fst p) /\ lex_ok (snd p)) l /\ sep_ok l /\
+  firstn 13 (run (render l []) false) = map (fun p => NT (tok_of (snd p)) []) l.
+Proof.
+  cbv zeta. split; [repeat constructor|]. split; [cbn; intuition (try discriminate; eauto)|vm_compute; reflexivity].
+Qed.
+Print Assumptions C11_lex.
